@@ -15,7 +15,7 @@ import json
 import vlib
 
 LEVEL = "model_checking"
-BOUNDS = {"quick": dict(MaxN=4, VecN=3, runs=500), "thorough": dict(MaxN=7, VecN=4, runs=40000)}
+BOUNDS = {"quick": dict(MaxN=4, VecN=3, runs=500), "thorough": dict(MaxN=6, VecN=4, runs=40000)}
 
 
 def replay_cases(ctx, binary, cases, tag, sub="replay"):
